@@ -268,11 +268,11 @@ class REGF1Model(Model):
         self.Pe = Algeb(tex_name='P_e',
                         info='active power injection from VSC',
                         e_str='vd * Id + vq * Iq - Pe',
-                        v_str='Pref')
+                        v_str='u * Pref')
         self.Qe = Algeb(tex_name='Q_e',
                         info='reactive power injection from VSC',
                         e_str='- vd * Iq + vq * Id - Qe',
-                        v_str='Qref')
+                        v_str='u * Qref')
 
         self.Id = Algeb(tex_name='I_d',
                         info='d-axis current',
@@ -308,7 +308,7 @@ class REGF1Primary:
 
         self.vref2 = Algeb(tex_name=r'v_{ref2}',
                            info='voltage reference after droop',
-                           e_str='(u * PIqlim_y - Qsen_y) * Qdrp + vref - vref2',
+                           e_str='(u * PIqlim_y - Qsen_y) * Qdrp + u * vref - vref2',
                            v_str='u * vref')
 
 
